@@ -18,7 +18,7 @@ RUN_TIMEOUT = 120
 SELFTEST_PAIRS = {"quick": 12, "thorough": 30}
 PROBES = ["predicate_reject", "predicate_accept", "boundary_exact", "directory_entries_present", "empty_entry_with_compressed_bytes", "forged_real_zip",
           "in_memory_zipinfo_list", "ordering_rejected_before_any_member_open", "ordering_accepted_validated_first", "position_preserved_on_reject",
-          "position_preserved_on_accept", "same_stream_object_reused", "float_ratio_limits", "extractor_history"]
+          "position_preserved_on_accept", "same_stream_object_reused", "duplicate_entry_names", "float_ratio_limits", "extractor_history"]
 RULE = ("predicate runs: entry vectors (file_size, compress_size, is_dir) on a boundary lattice x limit settings, served as in-memory ZipInfo lists "
         "and as real ZIPs with forged central directories to validate_zipfile / open_zipfile / validate_zip_bytesio, against a reference predicate; "
         "ordering runs: histories of 2-6 extractions through the ten ZIP-container extractors on corpus containers whose central directory is "
@@ -139,6 +139,7 @@ def gen_case(rng: random.Random, tier: str) -> dict:
         for _ in range(rng.choice([20, 40, 80])):
             lim = _gen_limits(rng)
             cases.append({"lim": lim, "entries": _gen_entries(rng, lim), "real": rng.random() < 0.45, "pos": rng.choice([0, 0, 5, 17, 10 ** 6]),
+                          "dupnames": rng.random() < 0.25,
                           "api": rng.choice(["validate_zipfile", "open_zipfile", "validate_zip_bytesio"])})
         return {"mode": "predicate", "cases": cases}
     steps = []
@@ -156,10 +157,10 @@ def gen_case(rng: random.Random, tier: str) -> dict:
 
 # ------------------------------------------------------------------------------------------------ realisations
 class FakeZip:
-    def __init__(self, entries):
+    def __init__(self, entries, dupnames=False):
         self._infos = []
         for i, (fs, cs, d) in enumerate(entries):
-            zi = zipfile.ZipInfo(f"e{i}" + ("/" if d else ".bin"))
+            zi = zipfile.ZipInfo((f"e{i % 2}" if dupnames else f"e{i}") + ("/" if d else ".bin"))
             zi.file_size, zi.compress_size = fs, cs
             self._infos.append(zi)
 
@@ -170,12 +171,15 @@ class FakeZip:
         pass
 
 
-def real_zip(entries) -> bytes:
+def real_zip(entries, dupnames=False) -> bytes:
     """a real ZIP (tiny stored members) whose central directory is forged to the given sizes"""
+    import warnings
     bio = io.BytesIO()
-    with zipfile.ZipFile(bio, "w", zipfile.ZIP_STORED) as z:
-        for i, (fs, cs, d) in enumerate(entries):
-            z.writestr(zipfile.ZipInfo(f"e{i}" + ("/" if d else ".bin")), b"" if d else b"x")
+    with warnings.catch_warnings():
+        warnings.simplefilter("ignore")
+        with zipfile.ZipFile(bio, "w", zipfile.ZIP_STORED) as z:
+            for i, (fs, cs, d) in enumerate(entries):
+                z.writestr(zipfile.ZipInfo((f"e{i % 2}" if dupnames else f"e{i}") + ("/" if d else ".bin")), b"" if d else b"x")
     data = bytearray(bio.getvalue())
     forge_cd(data, {i: (fs, cs) for i, (fs, cs, d) in enumerate(entries)})
     return bytes(data)
@@ -218,7 +222,7 @@ def _run_predicate(case, log, viol, probes, nontriv):
         try:
             if c["real"]:
                 probes["forged_real_zip"] = probes.get("forged_real_zip", 0) + 1
-                data = real_zip(ents)
+                data = real_zip(ents, c.get("dupnames", False))
                 bio = io.BytesIO(data)
                 p0 = min(c["pos"], len(data))
                 bio.seek(p0)
@@ -243,7 +247,7 @@ def _run_predicate(case, log, viol, probes, nontriv):
             else:
                 probes["in_memory_zipinfo_list"] = probes.get("in_memory_zipinfo_list", 0) + 1
                 try:
-                    zip_bomb.validate_zipfile(FakeZip(ents), limits=limits, source="sim")
+                    zip_bomb.validate_zipfile(FakeZip(ents, c.get("dupnames", False)), limits=limits, source="sim")
                     got = None
                 except ExtractionZipBombError:
                     got = "reject"
@@ -261,6 +265,8 @@ def _run_predicate(case, log, viol, probes, nontriv):
                          "detail": f"{api}: reference says {'reject by ' + want if want else 'accept'}, guard {'rejected' if got else 'accepted'}; entries={ents[:6]} limits={lim}",
                          "case": {"mode": "predicate", "cases": [c]}})
         probes["predicate_reject" if want else "predicate_accept"] = probes.get("predicate_reject" if want else "predicate_accept", 0) + 1
+        if c.get("dupnames") and len(ents) > 2:
+            probes["duplicate_entry_names"] = probes.get("duplicate_entry_names", 0) + 1
         if any(d for _a, _b, d in ents):
             probes["directory_entries_present"] = probes.get("directory_entries_present", 0) + 1
         if any(fs == 0 and cs > 0 and not d for fs, cs, d in ents):
